@@ -5,6 +5,10 @@ Cases
         SmodelsConvert(ext) -> SmodelsOutput(ext, 0) -> text -> readSmodels({claspExt, cEdge, cHeuristic, filter}) -> Recorder;
         probes = atoms whose image SmodelsConvert::get reports after the run
   [1, len, bytes..]   matchDomHeuPred on that string        [2, len, bytes..]   matchEdgePred on that string
+  [3, cEdge, cHeuristic, filter, calls..]  the calls are made DIRECTLY on SmodelsOutput(ext, 0) (no converter) and the text is read back with the
+        options: symbol tables that use one name for several atoms and list the same (atom, name) line again, in the same table or in the table
+        of a later step of an incremental program - shapes SmodelsConvert never writes but the format allows.  Every written symbol must come back
+        as written (apart from converted + filtered helper predicates); a `_heuristic(n,..)` symbol is delivered on an atom that carries the name n
 Observation: harness/h_c08.cpp.
 
 The oracle never looks at the Coq model.  For the pipeline it compares the INPUT program with what the reader DELIVERED:
@@ -21,7 +25,7 @@ from props import reuse as RU
 PID = 'C08'
 HARNESS = 'h_c08'
 HARNESS_EXTRA = ('rec.h', 'reuse.h')
-MODEL_MODULE = 'V.C08.Model'
+MODEL_MODULE = 'V.C08.Direct'     # coq/C08/Direct.v: the case decoder (kinds 0-2 of V.C08.Model + kind 3 = calls made directly on the writer)
 INT_MAX = 2 ** 31 - 1
 INT_MIN = -2 ** 31
 THEORY = (13, 14, 15, 16, 17, 18)
@@ -45,6 +49,11 @@ RULE = ('cases = (reader options cEdge/cHeuristic/filter, a well-formed call seq
         'back by a SmodelsInput OBJECT that before read or REFUSED one of 13 primer texts (harness/reuse.h: accepted plain / incremental; refused inside '
         'the rules, inside the symbol table, after the complete symbol table, inside the compute statement, in the trailer, in a second step, as extra '
         'input) whose symbol tables bind the generator\'s names and _atom(k) to OTHER atoms and contain _edge / _acyc_ / _heuristic predicates; '
+        'a stream "direct-repeated-names" (case kind 3): the calls are made on SmodelsOutput ITSELF, no converter in front - symbol tables over a few names and atoms, '
+        'so that one name is used for several atoms and the same (atom, name) line is listed again in the same table and in the table of a later step of an '
+        'incremental program (shapes SmodelsConvert never writes), with `_heuristic(name,..)` / `_edge(..)` symbols among them, read back with convertHeuristic with and '
+        'without filter (and the other option settings): every written symbol must come back as written apart from converted + filtered helper predicates, and a '
+        'heuristic lands on an atom that carries the target name; '
         'non-trivial = at least one heuristic / '
         'edge / external was delivered or expected, an expected error was observed, or a string case was judged by the reference parser; '
         'distinct = distinct case tuples')
@@ -66,9 +75,16 @@ def encode_trip(cE, cH, flt, probes, calls):
     return [0, int(cE), int(cH), int(flt), len(probes)] + list(probes) + K.enc_all(calls)
 
 
+def encode_direct(cE, cH, flt, calls):
+    return [3, int(cE), int(cH), int(flt)] + K.enc_all(calls)
+
+
 def decode(case):
     if not case:
         return ('bad',)
+    if case[0] == 3 and len(case) >= 4:
+        calls, rest = K.dec_all(list(case[4:]))
+        return ('direct', bool(case[1]), bool(case[2]), bool(case[3]), calls)
     if case[0] == 0 and len(case) >= 5:
         n = max(case[4], 0)
         probes = list(case[5:5 + n])
@@ -328,6 +344,8 @@ def _judge(case, obs):
     if d[0] in ('heu', 'edge'):
         info['nontrivial'] = True
         return judge_string(d[0], d[1], list(obs)), info
+    if d[0] == 'direct':
+        return judge_direct(d, obs, info), info
     _, cE, cH, flt, probes, calls = d
     po = parse_trip_obs(obs)
     if po is None:
@@ -505,6 +523,75 @@ def _judge(case, obs):
     return out, info
 
 
+def judge_direct(d, obs, info):
+    """calls made directly on the writer (generated: init, (begin, rules / externals, symbols, end)+, every symbol on ONE positive atom).
+    Property: "apart from generated helper names the shown symbols are unchanged" / without filter every symbol is shown; heuristics come
+    back on an atom identified by the target NAME."""
+    _, cE, cH, flt, calls = d
+    po = parse_trip_obs(obs)
+    if po is None:
+        return ['harness:malformed-observation']
+    deliv, rerr, ferr, _ = po
+    st = split_steps(calls)
+    if st is None or any(c[0] not in (4, 8, 9) or (c[0] == 8 and (len(c[2]) != 1 or c[2][0] <= 0)) for stp in st[1] for c in stp):
+        return []                                 # not the generated shape: nothing to judge
+    inc, steps = st
+    if len(steps) > 1 and not inc:
+        return []
+    if any((c[0] == 4 and (not c[2] or c[1] not in (0, 1))) or (c[0] == 9 and not 0 <= c[2] <= 3) for stp in steps for c in stp):
+        return []
+    for stp in steps:                             # the writer's order: symbols behind rules and externals
+        seen = False
+        for c in stp:
+            if c[0] == 8:
+                seen = True
+            elif c[0] == 4 and seen:
+                return []
+    if ferr is not None:
+        return ['error:supported-input-rejected-by-converter-or-writer']
+    if rerr is not None:
+        return ['error:reader-rejects-what-the-writer-wrote']
+    ds = split_steps(deliv)
+    if ds is None or len(ds[1]) != len(steps):
+        return ['trip:step-structure-changed']
+    sig = []
+    names_of = {}
+    for stp, dstp in zip(steps, ds[1]):
+        w_out = [(c[1], list(c[2])) for c in stp if c[0] == 8]
+        d_out = [(c[1], list(c[2])) for c in dstp if c[0] == 8]
+        for n, cond in w_out:
+            names_of.setdefault(n, set()).add(cond[0])
+        info['nontrivial'] = True
+        plain_w = [x for x in w_out if not x[0].startswith(HELPER)]
+        plain_d = [x for x in d_out if not x[0].startswith(HELPER)]
+        if plain_w != plain_d:
+            sig.append('output:symbol-table-not-delivered-as-written')
+        hidden_h = flt and cH
+        hidden_e = flt and cE
+        for pref, hidden in ((b'_heuristic(', hidden_h), (b'_edge(', hidden_e), (b'_acyc_', hidden_e)):
+            if not hidden and [x for x in w_out if x[0].startswith(pref)] != [x for x in d_out if x[0].startswith(pref)]:
+                sig.append('filter:helper-symbols-lost-although-not-filtered')
+        d_heu = [c for c in dstp if c[0] == 11]
+        if not cH and d_heu:
+            sig.append('heuristic:delivered-although-conversion-is-off')
+        if cH:
+            exp = []
+            for n, cond in w_out:
+                h = ref_heu(n)
+                if h is not None and h[4] == len(n) and h[3] <= INT_MAX and h[0] in names_of:
+                    exp.append((h[0], h[1], h[2], h[3], cond))
+            got = [(c[2], c[3], c[4], list(c[5])) for c in d_heu]
+            if [(e[1], e[2], e[3], e[4]) for e in exp] != got:
+                sig.append('heuristic:lost-or-changed')
+            elif any(dh[1] not in names_of[e[0]] for e, dh in zip(exp, d_heu)):
+                sig.append('heuristic:bound-to-an-atom-that-does-not-carry-the-target-name')
+    out = []
+    for x in sig:
+        if x not in out:
+            out.append(x)
+    return out
+
+
 def search_renaming(pairs):
     """pairs: [(step, input edge (12,s,t,cond), [candidate delivered edges])]; is there an assignment of distinct delivered edges
     (per step) and one injective node map rho with delivered = (rho s, rho t)?"""
@@ -548,6 +635,9 @@ def describe(case):
     if d[0] == 'trip':
         # harness/reuse.h: every other case is read back by a SmodelsInput OBJECT that read / refused a primer text before
         return 'trip cEdge=%d cHeuristic=%d filter=%d reader=%s: %s' % (d[1], d[2], d[3], RU.reader(case, 'smodels', True), K.pretty(d[5]))
+    if d[0] == 'direct':
+        return 'direct (calls on SmodelsOutput itself, no converter) cEdge=%d cHeuristic=%d filter=%d reader=%s: %s' % (
+            d[1], d[2], d[3], RU.reader(case, 'smodels', True), K.pretty(d[4]))
     if d[0] in ('heu', 'edge'):
         return '%s(%r)' % ('matchDomHeuPred' if d[0] == 'heu' else 'matchEdgePred', d[1])
     return 'undecodable case'
@@ -862,6 +952,52 @@ def prefix_name_cases(rnd, tier):
     return out
 
 
+# ---- calls made directly on the writer: repeated names / repeated symbol lines ---------------------------
+# SmodelsInput keeps a private name table (SymTab, only with convertHeuristic; shared by all steps of an incremental program).  SymTab::add
+# keeps the FIRST binding of a name for lookups and forwards EVERY symbol.  The converter never repeats an (atom, name) pair, so these
+# tables are written without it.
+DIRECT_NAMES = [b'a', b'b', b'p(1)', b'x y', b'_x', b'q("a,b")']
+
+
+def g_direct(rnd):
+    names = rnd.sample(DIRECT_NAMES, rnd.choice([1, 2, 2, 3]))
+    atoms = rnd.sample([1, 2, 3, 4, 7], rnd.choice([1, 2, 2, 3]))
+    nsteps = rnd.choice([1, 2, 2, 3])
+    calls = [(1, nsteps > 1 or rnd.random() < 0.2)]
+    for _ in range(nsteps):
+        calls.append((2,))
+        for _ in range(rnd.choice([0, 1, 1, 2])):
+            calls.append((4, rnd.choice([0, 0, 1]), [rnd.randint(1, 7)], [rnd.randint(1, 7) * rnd.choice([1, -1]) for _ in range(rnd.choice([0, 1, 2]))]))
+        if rnd.random() < 0.25:
+            calls.append((9, rnd.randint(1, 7), rnd.randint(0, 3)))
+        syms = [(8, rnd.choice(names), [rnd.choice(atoms)]) for _ in range(rnd.choice([1, 2, 3, 4, 6]))]
+        if rnd.random() < 0.35:
+            tgt = rnd.choice(names + [b'zz'])
+            syms.insert(rnd.randrange(len(syms) + 1), (8, b'_heuristic(%s,%s,%d,%d)' % (tgt, rnd.choice(MODS), rnd.choice([1, -1, 7]), rnd.choice([0, 1, 3])), [rnd.randint(1, 7)]))
+        if rnd.random() < 0.15:
+            syms.insert(rnd.randrange(len(syms) + 1), (8, b'_edge(%d,%d)' % (rnd.choice([0, 1, 2]), rnd.choice([0, 1, 2])), [rnd.randint(1, 7)]))
+        calls += syms
+        calls.append((3,))
+    return calls
+
+
+def direct_cases(rnd, tier):
+    out = []
+    I, B, E = (1, True), (2,), (3,)
+    fixed = [('two-atoms-one-name', [(1, False), B, (4, 0, [1], [2]), (8, b'a', [1]), (8, b'a', [2]), E]),
+             ('same-line-twice', [(1, False), B, (4, 0, [1], [2]), (8, b'a', [1]), (8, b'b', [2]), (8, b'a', [1]), E]),
+             ('later-step', [I, B, (4, 1, [1], []), (8, b'a', [1]), (8, b'b', [2]), E, B, (4, 0, [3], [1]), (8, b'a', [1]), (8, b'c', [3]), (8, b'a', [3]), E]),
+             ('later-step-heuristic', [I, B, (8, b'a', [1]), E, B, (8, b'a', [1]), (8, b'a', [2]), (8, b'_heuristic(a,sign,1,0)', [3]), E, B, (8, b'a', [1]), E])]
+    for kind, calls in fixed:
+        for o in ((0, 1, 0), (0, 1, 1), (1, 1, 1), (1, 1, 0), (0, 0, 0), (1, 0, 1)):
+            out.append((encode_direct(o[0], o[1], o[2], calls), {'kind': 'fixed-direct-' + kind}))
+    for _ in range({'quick': 400, 'thorough': 8000, 'search': 600}.get(tier, 400)):
+        calls = g_direct(rnd)
+        o = (rnd.randint(0, 1) if rnd.random() < 0.4 else 0, 1 if rnd.random() < 0.8 else 0, rnd.randint(0, 1))
+        out.append((encode_direct(o[0], o[1], o[2], calls), {'kind': 'direct-repeated-names'}))
+    return out
+
+
 def gen(seed, tier):
     rnd = random.Random(seed * 104729 + 8)
     n_trip = {'quick': 1800, 'thorough': 40000, 'search': 3000}.get(tier, 1800)
@@ -869,6 +1005,7 @@ def gen(seed, tier):
     out = fixed_cases()
     out += long_name_cases(random.Random(seed * 7477 + 85), tier)
     out += prefix_name_cases(random.Random(seed * 7481 + 86), tier)
+    out += direct_cases(random.Random(seed * 7487 + 87), tier)
     for _ in range(n_trip):
         r = rnd.random()
         if r < 0.70:
@@ -893,6 +1030,28 @@ def gen(seed, tier):
 
 def shrink(case, fails):
     d = decode(case)
+    if d[0] == 'direct':
+        _, cE, cH, flt, calls = d
+        changed = True
+        while changed:
+            changed = False
+            for i in range(len(calls) - 1, -1, -1):
+                if calls[i][0] == 1:
+                    continue
+                # a directive, or an empty step (begin directly followed by end) - never the last step
+                if calls[i][0] == 2:
+                    if not (i + 1 < len(calls) and calls[i + 1][0] == 3 and sum(1 for c in calls if c[0] == 2) > 1):
+                        continue
+                    t = calls[:i] + calls[i + 2:]
+                elif calls[i][0] == 3:
+                    continue
+                else:
+                    t = calls[:i] + calls[i + 1:]
+                if fails(encode_direct(cE, cH, flt, t)):
+                    calls = t
+                    changed = True
+                    break
+        return encode_direct(cE, cH, flt, calls)
     if d[0] == 'trip':
         _, cE, cH, flt, probes, calls = d
         changed = True
@@ -924,6 +1083,10 @@ def shrink(case, fails):
 def mutate(case, rnd):
     d = decode(case)
     res = []
+    if d[0] == 'direct':
+        for o in ((0, 1, 0), (0, 1, 1), (1, 1, 1), (0, 0, 0)):
+            res.append(encode_direct(o[0], o[1], o[2], d[4]))
+        return res
     if d[0] == 'trip':
         _, cE, cH, flt, probes, calls = d
         for o in ((1, 1, 1), (1, 1, 0), (0, 1, 0), (1, 0, 0)):
@@ -954,7 +1117,8 @@ LEVEL_TEXT = ('Machine-checked proofs (Coq) about an executable model of the pre
               '(of this or an earlier step), others dropped, edges of all steps up to ONE injective node renaming, externals unchanged, no helper symbol shown under filter; '
               'non-incremental texts of several steps: refused at the second step unless the first line is an external (then read like an incremental text, tables kept) - c08_noninc_multistep. '
               'The model is tied to the code by differential '
-              'correspondence (the real converter+writer+reader pipeline with a recorder at the end; direct calls of the two matchers on '
+              'correspondence (the real converter+writer+reader pipeline with a recorder at the end; the writer+reader pipeline WITHOUT the converter on symbol tables that '
+              'repeat names and (atom, name) lines within a table and across steps - coq/C08/Direct.v, same reader model; direct calls of the two matchers on '
               'generated strings) and by an independent python oracle on the implementation.')
 LEVEL_NOTE = ('Trusted: Coq kernel/vm_compute, extraction+driver (cross-checked), harness, translator, python oracle, ideal sprintf, libc '
               'strtol/sscanf modelled per the C standard. See notes/C08.md for the theorem list (c08_trip is full for every number of steps; only the superseded c08_flush_shape_partial keeps a _partial name). The "in every answer set" '
